@@ -37,7 +37,9 @@ BLOCKS = {
                      "angles": [I(["BB", "D1", "D2"], ["1", "109", "300"], {"ifdef": "FLEX"})],
                      "dihedrals": [I(["BB", "D1", "D2", "D3"], ["9", "0", "1.5", "1"], {"version": 1}),
                                    I(["BB", "D1", "D2", "D3"], ["9", "180", "2.5", "2"], {"version": 2})],
-                     "constraints": [I(["BB", "D2"], ["1", "0.25"], {"ifndef": "FLEX"})]}),
+                     "constraints": [I(["BB", "D2"], ["1", "0.25"], {"ifndef": "FLEX"})],
+                     # one exclusion line with three atoms: D2 is excluded from BB and from D3, BB and D3 not from each other
+                     "exclusions": [I(["D2", "BB", "D3"], [])]}),
     "E": dict(nrexcl=1,     # shares the atom names BB / SC1 with block C
               atoms=[("BB", "E1", 0.0, 30.0, 1), ("SC1", "E2", 0.05, 31.0, 2)],
               inter={"bonds": [I(["BB", "SC1"], ["1", "0.34", "1004"])]}),
